@@ -87,6 +87,12 @@ class Verdict:
         self.assumptions = []
         self.notes = {}
 
+    def lap(self, name):
+        now = time.time()
+        last = getattr(self, "_lap", self.t0)
+        self.cov.setdefault("phase_s", {})[name] = round(now - last, 1)
+        self._lap = now
+
     def observe(self, key, replay):
         """A contradiction between the code and the meaning layer.  key identifies the
         failing input / call site for the known-findings file."""
